@@ -1,69 +1,69 @@
 -------------------------------- MODULE Vlan --------------------------------
 (***************************************************************************)
-(* X06 -- the in-process virtual network every multi-node test and          *)
-(* simulation of the library stands on  (code: vlan.py  Network, Node,      *)
-(* IPNetwork, IPNode, IPRouterNode, IPRouter; delivery is the zero-delay    *)
-(* task  Node.indication -> task.OneShotFunction(lan.process_pdu, pdu)).    *)
-(*                                                                          *)
-(* Top = TopoAt(topo) (topo never changes) is the set of objects that were   *)
-(* constructed:                                                             *)
+(* X06 -- the in-process virtual network every multi-node test and         *)
+(* simulation of the library stands on  (code: vlan.py  Network, Node,     *)
+(* IPNetwork, IPNode, IPRouterNode, IPRouter; delivery is the zero-delay   *)
+(* task  Node.indication -> task.OneShotFunction(lan.process_pdu, pdu)).   *)
+(*                                                                         *)
+(* Top = TopoAt(topo) (topo never changes) is the set of objects that were *)
+(* constructed:                                                            *)
 (*   Top.node[n]  [addr, plen, ip, prom, spoof, raises]                    *)
-(*                 addr: a sequence of integers -- <<k>> for a node of a    *)
-(*                 plain Network, <<a,b,c,d,port>> for an IPNode built from *)
-(*                 Address("a.b.c.d/plen:port"); prom / spoof: the flags of *)
-(*                 the Node; raises: what is bound on top of the node       *)
-(*                 raises an exception out of its confirmation()            *)
+(*                 addr: a sequence of integers -- <<k>> for a node of a   *)
+(*                 plain Network, <<a,b,c,d,port>> for an IPNode built from*)
+(*                 Address("a.b.c.d/plen:port"); prom / spoof: the flags of*)
+(*                 the Node; raises: what is bound on top of the node      *)
+(*                 raises an exception out of its confirmation()           *)
 (*   Top.net[k]   [ip, bcast, drop]  ip: an IPNetwork; bcast: the          *)
-(*                 broadcast address a plain Network was constructed with;  *)
-(*                 drop: drop_percent (integer 0..100)                      *)
+(*                 broadcast address a plain Network was constructed with; *)
+(*                 drop: drop_percent (integer 0..100)                     *)
 (*   Top.router   the IPRouterNodes of the one IPRouter in add_network     *)
 (*                 order (their Node objects are Top.node entries with     *)
-(*                 prom = spoof = TRUE, attached from the start, for good)  *)
+(*                 prom = spoof = TRUE, attached from the start, for good) *)
 (*   Top.member   the attachment lists the run starts with                 *)
-(* State: member (the list Network.nodes of every network, in order),       *)
-(* bcast (Network.broadcast_address: an IPNetwork takes it from the first   *)
-(* node that joins it while it is empty), flight (the scheduled             *)
-(* process_pdu calls, oldest first: one entry per frame on its way), rin    *)
-(* (frames an IPRouterNode has been handed that the IPRouter has not        *)
-(* looked at yet), rcv (per node: what came out on top of it, in order),    *)
-(* wire (per network: what its traffic_log was called with).  History:      *)
-(* sent (the accepted requests: frame id = position), lost (frames the      *)
-(* drop_percent lottery took), act (the last action), cnt (actions taken).  *)
-(*                                                                          *)
-(* Actions: Send(n, dst, claim, pl)  a client calls request(pdu) on node n  *)
-(*            (claim = NoAddr: pduSource left unset)                        *)
-(*          Deliver(draw)  the oldest scheduled process_pdu call runs       *)
-(*            (draw: what random.random() returned, in 1/8192, or -1 when   *)
-(*            the network has drop_percent 0 and does not draw); the        *)
-(*            members of the network AT THAT MOMENT are served              *)
-(*          Forward        the IPRouter looks at one frame (urgent: nothing *)
-(*            else happens while rin is non-empty; in the code it is a      *)
-(*            synchronous call from inside the delivery)                    *)
-(*          AddNode(n, k) / RemoveNode(n)   Network.add_node / remove_node  *)
-(*          Mutate(id, pl) the sender changes the PDU object it has handed  *)
-(*            to request() for frame id                                     *)
-(*                                                                          *)
-(* Design decisions that follow the code and are NOT deviations: a unicast  *)
-(* goes to every attached node that is promiscuous or has the destination   *)
-(* address -- the sender is no exception (a promiscuous sender hears its    *)
-(* own unicast, a node may write to itself); the members at delivery time   *)
-(* count, not those at send time.                                           *)
-(*                                                                          *)
-(* Named deviations (all FALSE in the intended design; each describes what  *)
-(* the pinned code does and makes TLC find a violation):                    *)
-(*   SendByReference         the frame in flight IS the caller's PDU object:*)
-(*                           what the caller does to it after request()     *)
-(*                           returned is what gets delivered                *)
-(*   BcastExcludesByAddress  a broadcast is withheld from every node whose  *)
-(*                           address equals the frame's SOURCE ADDRESS, not *)
-(*                           from the node that sent it: with a claimed     *)
-(*                           source (spoofing node, IPRouterNode forwarding *)
-(*                           a directed broadcast) the sender gets its own  *)
-(*                           frame back and the node whose address was      *)
-(*                           claimed gets nothing                           *)
-(*   RaiseCutsDelivery       an exception out of one receiver ends the      *)
-(*                           delivery loop: the receivers behind it in the  *)
-(*                           list (and the router) never see the frame      *)
+(* State: member (the list Network.nodes of every network, in order),      *)
+(* bcast (Network.broadcast_address: an IPNetwork takes it from the first  *)
+(* node that joins it while it is empty), flight (the scheduled            *)
+(* process_pdu calls, oldest first: one entry per frame on its way), rin   *)
+(* (frames an IPRouterNode has been handed that the IPRouter has not       *)
+(* looked at yet), rcv (per node: what came out on top of it, in order),   *)
+(* wire (per network: what its traffic_log was called with).  History:     *)
+(* sent (the accepted requests: frame id = position), lost (frames the     *)
+(* drop_percent lottery took), act (the last action), cnt (actions taken). *)
+(*                                                                         *)
+(* Actions: Send(n, dst, claim, pl)  a client calls request(pdu) on node n *)
+(*            (claim = NoAddr: pduSource left unset)                       *)
+(*          Deliver(draw)  the oldest scheduled process_pdu call runs      *)
+(*            (draw: what random.random() returned, in 1/8192, or -1 when  *)
+(*            the network has drop_percent 0 and does not draw); the       *)
+(*            members of the network AT THAT MOMENT are served             *)
+(*          Forward        the IPRouter looks at one frame (urgent: nothing*)
+(*            else happens while rin is non-empty; in the code it is a     *)
+(*            synchronous call from inside the delivery)                   *)
+(*          AddNode(n, k) / RemoveNode(n)   Network.add_node / remove_node *)
+(*          Mutate(id, pl) the sender changes the PDU object it has handed *)
+(*            to request() for frame id                                    *)
+(*                                                                         *)
+(* Design decisions that follow the code and are NOT deviations: a unicast *)
+(* goes to every attached node that is promiscuous or has the destination  *)
+(* address -- the sender is no exception (a promiscuous sender hears its   *)
+(* own unicast, a node may write to itself); the members at delivery time  *)
+(* count, not those at send time.                                          *)
+(*                                                                         *)
+(* Named deviations (all FALSE in the intended design; each describes what *)
+(* the pinned code does and makes TLC find a violation):                   *)
+(*   SendByReference         the frame in flight IS the caller's PDU object *)
+(*                           what the caller does to it after request()    *)
+(*                           returned is what gets delivered               *)
+(*   BcastExcludesByAddress  a broadcast is withheld from every node whose *)
+(*                           address equals the frame's SOURCE ADDRESS, not*)
+(*                           from the node that sent it: with a claimed    *)
+(*                           source (spoofing node, IPRouterNode forwarding*)
+(*                           a directed broadcast) the sender gets its own *)
+(*                           frame back and the node whose address was     *)
+(*                           claimed gets nothing                          *)
+(*   RaiseCutsDelivery       an exception out of one receiver ends the     *)
+(*                           delivery loop: the receivers behind it in the *)
+(*                           list (and the router) never see the frame     *)
 (***************************************************************************)
 EXTENDS Integers, Sequences, FiniteSets, TLC
 
